@@ -44,7 +44,7 @@ def url_of(start):
 def argv_of(scen, db, directory):
     o = scen['opt']
     a = [url_of(s) for s in scen['starts']]
-    a += ['-q', '--database', db, '-P', directory, '--waitretry', '0', '--tries', '1', '--timeout', '30',
+    a += ['--very-quiet', '--database', db, '-P', directory, '--waitretry', '0', '--tries', '1', '--timeout', '30',
           '--html-parser', 'html5lib', '--no-robots', '--no-check-certificate']
     if o['r']:
         a.append('-r')
@@ -78,7 +78,8 @@ class Tree(object):
 
     def children(self, segs):
         n = len(segs)
-        return sorted((p[-1], k) for p, k in self.kind.items() if len(p) == n + 1 and p[:n] == tuple(segs))
+        # listing order = the order of the scenario's tree (the model records children in that order)
+        return [(p[-1], k) for p, k in self.kind.items() if len(p) == n + 1 and p[:n] == tuple(segs)]
 
     def content(self, segs):
         return ('content of /' + '/'.join(segs) + '\n').encode()
@@ -313,7 +314,10 @@ class FtpCrawl(object):
             @asyncio.coroutine
             def process(self, item_session):
                 t = asyncio.current_task()
-                run.task_item[t] = ukey(item_session.url_record.url)
+                rec = item_session.url_record
+                run.task_item[t] = ukey(rec.url)
+                run.ev.append({'e': 'begin', 'u': ukey(rec.url), 'lvl': int(rec.level or 0),
+                               'lt': (rec.link_type.value if rec.link_type is not None else 'none')})
                 try:
                     return (yield from DelegateProcessor.process(self, item_session))
                 finally:
